@@ -107,4 +107,40 @@ PROPS = {
         "min_counters": {"inputs.decodable": 2000, "R1.validated-ok": 2000, "R2.unknown-values-compared": 500,
                          "R3.compared": 2000},
     },
+    "C04": {
+        "title": "Message integrity accepts exactly the untampered message under the right key",
+        "profiles": ["dev"],
+        "rule": ("library-encoded messages with tails MI / SHA256 / MI+SHA256, each with and without FINGERPRINT, under "
+                 "short-term, long-term-MD5 and long-term-SHA256 keys; oracles: HMACKey::as_bytes() == reference key "
+                 "(OpaqueString(password); MD5/SHA-256 of user:OpaqueString(realm):OpaqueString(password)), MAC bytes == "
+                 "reference HMAC over the reference prefix with adjusted length, untampered accepted through both paths "
+                 "(validating decoder returning the attribute; validate(get_input_text())), NOT accepted after every "
+                 "single-bit flip of bytes [0,2)+[4,off)+MAC (exhaustive for messages <= 280 bytes, 24 sampled positions "
+                 "for larger), NOT accepted under keys differing in one character of password/user/realm, the other "
+                 "derivation algorithm or the other mechanism; reference-appended SHA256/FINGERPRINT must not invalidate. "
+                 "Non-trivial = every message (all carry integrity); distinct = hash of encoded bytes."),
+        "assumptions": [STABLE + "; one third of the keys additionally use non-ASCII spaces and base+combining-mark "
+                        "pairs whose OpaqueString mapping (space -> U+0020, NFC) is tabulated in the generator",
+                        "a random 160/256-bit MAC collision is treated as impossible"],
+        "min_counters": {"faults.rejected": 100000, "wrong-key.rejected": 1000, "untampered.accepted": 1000,
+                         "appended.still-valid": 300, "vectors.accepted": 5},
+    },
+    "C16": {
+        "title": "Stream reassembly yields the same packets however the stream is chunked",
+        "profiles": ["dev"],
+        "crash_is_violation": True,
+        "rule": ("streams of 1-3 packets (STUN header + 0..1000 attribute bytes, zero-length messages included; one in "
+                 "five streams ends with a 20-byte block that is not a STUN header) fed to StunPacketDecoder in chunks, a "
+                 "fresh decoder taking the rest of a chunk after each Decoded; ALL 2-cut chunkings (quick <=160, thorough "
+                 "<=420 byte streams) and ALL 3-cut chunkings (quick <=48, thorough <=96), random k<=12-cut and "
+                 "byte-by-byte chunkings for streams up to 3100 bytes; buffer sizes len-1, len, len+1, 20, smaller, "
+                 "larger. A position-tracking model states for every call what must come back: Decoded exactly when the "
+                 "chunk completes the packet with consumed = bytes needed, packet bytes identical, MoreBytesNeeded(None) "
+                 "before 20 bytes were seen and Some(exact remainder) afterwards, InvalidStunPacket / SmallBuffer at the "
+                 "chunk that completes the header with consumed = header bytes taken and the buffer handed back; the final "
+                 "outcome must not depend on the chunking. Distinct = hash of the stream bytes."),
+        "assumptions": [],
+        "min_counters": {"chunkings": 100000, "outcome.complete": 50, "outcome.invalid-header": 10,
+                         "outcome.small-buffer": 50},
+    },
 }
